@@ -864,6 +864,9 @@ func (b *Builder) FractionDigits(o interface{}, x int) {
 	i, valid := o.(*Type)
 	if !valid {
 		b.setErr(fmt.Errorf("%T does not support fraction digits, only type does", o))
+	} else if x < 1 || x > 18 {
+		// RFC7950 Sec 9.3.4
+		b.setErr(fmt.Errorf("fraction-digits %d is not in 1..18", x))
 	} else {
 		i.fractionDigits = x
 	}
